@@ -567,9 +567,9 @@ impl<'a> CompiledPredicate<'a> {
             (Value::Null, Value::Null) => true,
             (Value::Null, _) | (_, Value::Null) => false,
             (Value::Int(x), Value::Int(y)) => x == y,
-            (Value::Float(x), Value::Float(y)) => (x - y).abs() < f64::EPSILON,
-            (Value::Int(x), Value::Float(y)) => ((*x as f64) - y).abs() < f64::EPSILON,
-            (Value::Float(x), Value::Int(y)) => (x - (*y as f64)).abs() < f64::EPSILON,
+            (Value::Float(x), Value::Float(y)) => x == y,
+            (Value::Int(x), Value::Float(y)) => (*x as f64) == *y,
+            (Value::Float(x), Value::Int(y)) => *x == (*y as f64),
             (Value::Text(x), Value::Text(y)) => x == y,
             _ => false,
         }
